@@ -186,3 +186,88 @@ def loop_exits(prog, fn, s, header, body):
             else:
                 out.append((x, None, None))
     return out
+
+
+def paired_writes(prog, owner, buf_field, count_field, either_side=False):
+    """who-writes pairing: for every `&mut self` method of `owner` that can change the buffer held in `buf_field` (store
+    through the field, a mutable borrow of it, or through a copied Box/Vec pointer), every path from that point to a normal
+    return passes a store to `count_field` or a call that (transitively) stores it.
+    yields (fn, block, ok)"""
+    count_writers = set()
+    for f in prog.fns.values():
+        if not f.promoted and any(True for _ in sym.field_stores(prog, adt=owner, field=count_field, fns=[f])):
+            count_writers.add(f.id)
+    memo = {}
+
+    def writes_count(tgt):
+        if tgt not in memo:
+            memo[tgt] = tgt in count_writers or any(g.id in count_writers for g in reach_from(prog, [tgt]))
+        return memo[tgt]
+    for f in [x for x in prog.fns.values() if not x.promoted and x.owner == owner]:
+        if f.argc < 1 or not f.local_ty(1).startswith("&mut"):
+            continue
+
+        def on_buf(pl, alias):
+            return (not isinstance(pl, int)) and ((pl[0] == 1 and any(p[0] == "." and p[2] == buf_field for p in pl[1])) or (pl[0] in alias and any(p[0] == "*" for p in pl[1])))
+        alias = set()
+        changed = True
+        while changed:
+            changed = False
+            for b in f.blocks:
+                for st in b.stmts:
+                    if st[0] != "=" or not isinstance(st[1], int) or st[1] in alias or st[2][0] not in ("use", "cast"):
+                        continue
+                    op = st[2][1] if st[2][0] == "use" else st[2][2]
+                    if op[0] not in ("c", "m"):
+                        continue
+                    pl = op[1]
+                    base = pl if isinstance(pl, int) else pl[0]
+                    if on_buf(pl, ()) or base in alias:
+                        alias.add(st[1])
+                        changed = True
+        muts = set()
+        for b in f.blocks:
+            if b.cleanup:
+                continue
+            for st in b.stmts:
+                if st[0] == "=" and st[2][0] == "ref" and st[2][1] == "mut" and on_buf(st[2][2], alias):
+                    muts.add(b.idx)
+                if st[0] == "=" and on_buf(st[1], alias):
+                    muts.add(b.idx)
+            t = b.term
+            if t[0] == "call" and not isinstance(t[1]["dest"], int) and on_buf(t[1]["dest"], alias):
+                muts.add(b.idx)
+        if not muts:
+            continue
+        sf = Sym(prog, f, ifconv=False)
+        counted = set(b for (ff, b, kind, place, rv, span, adt, fld) in sym.field_stores(prog, adt=owner, field=count_field, fns=[f]))
+        for b, site in f.calls():
+            tgt = site.get("callee")
+            if tgt and tgt in prog.fns and writes_count(tgt):
+                counted.add(b)
+        # blocks reachable from the entry without passing a count update
+        pre = set()
+        st_ = [0] if 0 not in counted else []
+        while st_:
+            x = st_.pop()
+            if x in pre:
+                continue
+            pre.add(x)
+            st_.extend(y for y in f.succs(x) if y not in counted and not f.blocks[y].cleanup)
+        for m in sorted(muts):
+            after = m in counted or not any(sf.reaches_exit_avoiding(sx, counted) for sx in f.succs(m) if not f.blocks[sx].cleanup)
+            before = m not in pre
+            yield f, m, (after or (before and either_side))
+
+
+def pairing_rule(res, prog, rule, owner, buf_field, count_field, floor, either_side=True):
+    """instantiate paired_writes as a rule: violation when a method can change the buffer and return with the counter untouched"""
+    n = 0
+    for f, m, ok in paired_writes(prog, owner, buf_field, count_field, either_side):
+        n += 1
+        res.obligations += 1
+        if ok:
+            res.discharged += 1
+        else:
+            res.violate(rule, "%s|%s|unpaired-%s" % (rule, f.id, buf_field), "%s can change `%s` and return without `%s` having been updated on that path" % (f.id, buf_field, count_field), f.id)
+    res.rule(rule + ".pair", n, floor, "writes of %s.%s paired with %s" % (owner.rsplit("::", 1)[-1], buf_field, count_field))
